@@ -686,7 +686,12 @@ def assemble(unit_path, repo=REPO):
                 raise ExtractError('stmtfn: start lost: %s' % kv['start'])
             e0 = st + len(kv['start'])
             depth, e1 = 0, e0
-            while e1 < len(src.masked):
+            if 'until' in kv:
+                # a run of statements: everything up to the given text (which must follow), verbatim
+                e1 = src.src.find(kv['until'], e0)
+                if e1 < 0:
+                    raise ExtractError('stmtfn: end lost: %s' % kv['until'])
+            while 'until' not in kv and e1 < len(src.masked):
                 ch = src.masked[e1]
                 if ch in '([{':
                     depth += 1
@@ -703,7 +708,24 @@ def assemble(unit_path, repo=REPO):
             if 'props' in kv:
                 fnrec.props |= set(kv['props'].split(','))
             contract = parse_contract(block, fnrec, unit_name)
-            body = '{\n' + rw.apply_all(expr, {}) + '\n}'
+            sopts = {}
+            for o_ in kv.get('opt', '').split(','):
+                if o_:
+                    sopts[o_] = True
+            if contract['fmtcat']:
+                sopts['fmtcat'] = contract['fmtcat']
+            expr = expr + kv.get('tail', '').replace('\\n', '\n')
+            if sopts.get('absfmt'):
+                expr, na_ = rsx.abs_format_args(expr)
+                asm.manual.append('%s: format! argument abstraction (%d computed arguments replaced by vx::any_arg(); see rsx.abs_format_args)' % (fnrec.key, na_))
+            for old_, new_ in contract['bodyrep']:
+                if old_ in expr:
+                    expr = expr.replace(old_, new_)
+                    asm.manual.append('%s: %r => %r' % (fnrec.key, old_, new_))
+                else:
+                    asm.manual.append('%s: rewrite %r not applicable (text absent)' % (fnrec.key, old_))
+            contract['bodyrep'] = []
+            body = '{\n' + rw.apply_all(expr, sopts) + '\n}'
             emit_fn(asm, fnrec, 'pub ' + sig, body, contract, kv.get('ret', 'r'))
             asm.manual.append('statement extracted as function: %s: `%s...` after `%s`' % (file, kv['start'], kv['after'][:50]))
             i = j + 1
